@@ -71,8 +71,8 @@ let handle (fields : ostring list) : ostring =
       let param () = match rest with p :: _ -> n_of_hex p | [] -> failwith "codecs: missing parameter" in
       (match fn with
        | "parseInt" -> out_of show_f64 int_err (parse_int (list_n_of arg))
-       | "parseOctal" -> out_of show_f64 radix_err (parse_num_radix_orig (n_of_int 8) (list_n_of arg))
-       | "parseHex" -> out_of show_f64 radix_err (parse_num_radix_orig (n_of_int 16) (list_n_of arg))
+       | "parseOctal" -> out_of show_f64 radix_err (parse_num_radix (n_of_int 8) (list_n_of arg))
+       | "parseHex" -> out_of show_f64 radix_err (parse_num_radix (n_of_int 16) (list_n_of arg))
        | "parseOctal_orig" -> out_of show_f64 radix_err (parse_num_radix_orig (n_of_int 8) (list_n_of arg))
        | "parseHex_orig" -> out_of show_f64 radix_err (parse_num_radix_orig (n_of_int 16) (list_n_of arg))
        | "base64s" -> out_of of_list_n b64_err (base64_string (list_n_of arg))
